@@ -441,3 +441,5 @@ MANIFEST = {
             "dtype clause is decided by the direct predicate only. Ops that override Operation.backward (GRU) are outside the "
             "generic path and are covered by the predicate (known finding for the GRU hidden-sequence gradient).",
 }
+
+MANIFEST_ADDENDUM = 'Oracle additions: byte-swapped float dtypes; tensor seeds of another dtype, integer tensor seeds, float16 array seeds; 9 histories in which a tensor holding a gradient changes shape or is updated in place inside no_autodiff.'
